@@ -9,4 +9,14 @@ for prof in C01 C02 C03 C05 C07 C08 C08F C10 C11 C14 C15 C16 C17 C18; do
   c=$(target/release/cobsim hashes --profile $prof --runs $runs --threads 16 --seed 7 | md5sum)
   if [ "$a" = "$b" ] && [ "$b" = "$c" ]; then echo "$prof: $runs runs x 3 processes (1/4/16 workers): identical"; else echo "$prof: DIVERGENCE $a $b $c"; fail=1; fi
 done
+# thread scenario: same seed => same programs, same schedules, same histories
+for i in 1 2; do target/release/cobsim check C10 quick --runs 1000 --seed 7 --out /tmp/cobsim-det-$i.json > /dev/null; done
+python3 - <<'PY' || fail=1
+import json
+a,b=[json.load(open(f'/tmp/cobsim-det-{i}.json'))['coverage']['thread_scenario'] for i in (1,2)]
+for d in (a,b): d.pop('executions_per_hour',None)
+print('shuttle thread scenario: 2 processes x', a['executions_completed'], 'executions:', 'identical' if a==b else 'DIVERGENCE')
+raise SystemExit(0 if a==b else 1)
+PY
+rm -f /tmp/cobsim-det-1.json /tmp/cobsim-det-2.json
 exit $fail
